@@ -4,8 +4,10 @@ package main
 // Real code exercised: VisitJSON (default and MultiErrors) on values whose every string leaf is a unique marker;
 // the Reason of every SchemaError at every nesting level (Origin chains included) and the messages rendered with
 // details disabled / with a reason-only customizer are searched for markers, and the top-level reason texts are
-// compared with the model's rendered reason fragments. Through the request validator: ValidateRequest with
-// WithCustomSchemaErrorFunc(reason only) on JSON bodies carrying the same markers.
+// compared with the model's rendered reason fragments. Through openapi3filter with WithCustomSchemaErrorFunc(reason only):
+// ValidateRequest on JSON bodies and content-described query parameters, ValidateResponse on JSON bodies and — for
+// string values — on a response HEADER declared with the schema, each fail-first and with MultiError; the texts of
+// RequestError / ResponseError / MultiError .Error() and the Title/Source that ConvertErrors derives are searched too.
 
 import (
 	"bytes"
@@ -17,6 +19,7 @@ import (
 	"net/http"
 	"net/url"
 	"regexp"
+	"runtime/debug"
 	"strings"
 	"sync"
 
@@ -29,21 +32,75 @@ import (
 
 const c19Marker = "ZQXJ"
 
+// value strings that are well-formed for SOME format validator (an address of the other family, an almost-date):
+// validators have branches that only such inputs reach. They occur in no schema.
+var c19Specials = []string{"198.51.100.77", "2001:db8::77", "2020-02-30", "198.51.100.77/33"}
+
+// Go values outside the JSON-shaped set that visitJSON handles ("unhandled value of type %T"): a named string type, a
+// map[string]string, a struct, a map[any]any with a non-string key — each carrying a marker
+type c19Token string
+type c19Struct struct{ Name string }
+
+func c19GoForm(kind string, marker string) any {
+	switch kind {
+	case "namedString":
+		return c19Token(marker)
+	case "mapStringString":
+		return map[string]string{"k": marker}
+	case "struct":
+		return c19Struct{Name: marker}
+	case "structPtr":
+		return &c19Struct{Name: marker}
+	case "mapAnyAnyIntKey":
+		return map[any]any{1: marker}
+	case "stringer":
+		return fmt.Errorf("%s", marker)
+	}
+	return marker
+}
+
+var c19GoKinds = []string{"namedString", "mapStringString", "struct", "structPtr", "mapAnyAnyIntKey", "stringer"}
+
+// c19Typed replaces every {"$go": kind, "s": marker} node of a case value by the Go value it stands for
+func c19Typed(v any) any {
+	switch x := v.(type) {
+	case map[string]any:
+		if k, ok := x["$go"].(string); ok {
+			m, _ := x["s"].(string)
+			return c19GoForm(k, m)
+		}
+		out := make(map[string]any, len(x))
+		for k, e := range x {
+			out[k] = c19Typed(e)
+		}
+		return out
+	case []any:
+		out := make([]any, len(x))
+		for i, e := range x {
+			out[i] = c19Typed(e)
+		}
+		return out
+	}
+	return plainValue(v)
+}
+
 func init() {
 	hx.Register(&hx.Prop{
 		ID: "C19",
 		Rule: "the schema space of C01/C12 crossed with a value alphabet in which every string leaf is a unique marker (all JSON types, nested; strings of lengths 4–12 so that " +
-			"length, pattern, enum, format, type and composition keywords fail at depth 0–2); every Reason at every nesting level and three message paths are searched for markers; " +
+			"length, pattern, enum, format, type and composition keywords fail at depth 0–2); every Reason at every nesting level and every message path assembled from reasons " +
+			"(customizer fail-first/multi, details disabled, RequestError and ResponseError texts of body / parameter / response body / response header, fail-first/multi, ConvertErrors titles) are searched for markers; " +
 			"reason texts are compared with the model. Non-trivial = the value is rejected with at least one error (the driver reports field and nesting).",
 		Exhaustive: true,
 		Gen:        genC19,
 		Run:        runC19,
 		Compare:    cmpC19,
 		Shrink:     shrinkSchemaCase,
-		Workers:    1, // the details switch is a package variable: cases toggle it and must not overlap
 		Assumptions: []string{
 			"markers are strings that occur in no schema; property names and numbers are not markers (the property speaks of string values)",
 			"validator/regexp-compiler texts inside reasons are matched as wildcards (their wording is the validator's, checked for markers only)",
+			"ConvertErrors: Title and Source are searched; the Detail it adds to an enum error quotes the value by design (not a message assembled from reasons)",
+			"typed Go values outside the JSON-shaped set (named string, map[string]string, struct, …) have no model: the marker search is the whole check for them",
 		},
 	})
 }
@@ -54,6 +111,7 @@ func init() {
 	// string formats beyond the three registered by default, so that every shape of validator error is exercised:
 	// a built-in validator returning a bare *SchemaError, and a user validator that WRAPS such an error.
 	openapi3.DefineIPv4Format()
+	openapi3.DefineIPv6Format()
 	ip := openapi3.NewIPValidator(true)
 	openapi3.DefineStringFormatValidator("x-wrapped-ip", openapi3.NewCallbackValidator(func(v string) error {
 		if err := ip.Validate(v); err != nil {
@@ -97,11 +155,30 @@ func sortStrings(s []string) {
 	}
 }
 
-func genC19(ctx *hx.Ctx, emit func(hx.Case)) {
+func genC19(ctx *hx.Ctx, emit0 func(hx.Case)) {
+	debug.SetGCPercent(400)
+	emit := func(c hx.Case) { delete(c, "pre"); emit0(c) } // the regex-compiler history is observed by C01
 	vals := make([]any, 0, len(c01Values))
 	n := 0
 	for _, v := range c01Values {
 		vals = append(vals, markerize(v, &n))
+	}
+	for _, sp := range c19Specials {
+		vals = append(vals, sp, []any{sp}, map[string]any{"a": sp})
+	}
+	// typed Go values the visitor does not handle, at depth 0–2, under schemas that reach the type switch (no model: markers only)
+	for _, kind := range c19GoKinds {
+		g := map[string]any{"$go": kind, "s": c19Marker + "7typed"}
+		for _, v := range []any{g, []any{g}, map[string]any{"a": g}, map[string]any{"a": []any{1, g}}} {
+			for _, sch := range []map[string]any{
+				{"type": "string"}, {"type": "object"}, {"minLength": 1}, {"enum": []any{"x"}}, {"not": map[string]any{"type": "integer"}},
+				{"items": map[string]any{"type": "string", "maxLength": 1}}, {"properties": map[string]any{"a": map[string]any{"type": "string"}}},
+				{"additionalProperties": map[string]any{"items": map[string]any{"maxLength": 1}}}, {"anyOf": []any{map[string]any{"type": "string"}, map[string]any{"items": map[string]any{"type": "string"}}}},
+				{"oneOf": []any{map[string]any{"type": "string"}}, "properties": map[string]any{"a": map[string]any{"minLength": 1}}},
+			} {
+				emit0(hx.Case{"schema": sch, "value": v, "nomodel": true})
+			}
+		}
 	}
 	for i, c := range c01DiscCases() {
 		if !ctx.Thorough() && i%2 == 1 {
@@ -111,8 +188,11 @@ func genC19(ctx *hx.Ctx, emit func(hx.Case)) {
 		c["value"] = markerize(c["value"], &k)
 		emit(withOracle(c))
 	}
-	for _, s := range c01Schemas(ctx) {
-		for _, v := range vals {
+	for i, s := range c01Schemas(ctx) {
+		for j, v := range vals {
+			if !ctx.Thorough() && (i+j)%2 != 0 {
+				continue
+			}
 			emit(withOracle(hx.Case{"schema": s, "value": v}))
 		}
 	}
@@ -173,106 +253,242 @@ func topReasons(err error) []any {
 	return out
 }
 
+// mentionsKey: some object in the tree has one of the keys
+func mentionsKey(v any, keys ...string) bool {
+	switch x := v.(type) {
+	case map[string]any:
+		for _, k := range keys {
+			if _, ok := x[k]; ok {
+				return true
+			}
+		}
+		for _, e := range x {
+			if mentionsKey(e, keys...) {
+				return true
+			}
+		}
+	case []any:
+		for _, e := range x {
+			if mentionsKey(e, keys...) {
+				return true
+			}
+		}
+	}
+	return false
+}
+
+// c19Mu: the details switch is a package variable. Everything that runs with the default setting holds the read lock;
+// the short section that validates and renders with details disabled holds the write lock.
+var c19Mu sync.RWMutex
+
+func reasonOnly(e *openapi3.SchemaError) string { return e.Reason }
+
+// isParseErr: a value that does not decode as the parameter / header is quoted by the PARSE error — not a schema error
+func isParseErr(e error) bool {
+	var pe *openapi3filter.ParseError
+	return errors.As(e, &pe)
+}
+
+// c19Request validates value v, sent as a JSON body (op with a request body) or as a content-described query parameter,
+// through the request validator with a reason-only schema-error function; returns the errors whose text comes from schema errors.
+func c19Request(s *openapi3.Schema, body []byte, asParam bool, multi bool) (schemaErr error, full error) {
+	opts := &openapi3filter.Options{MultiError: multi}
+	opts.WithCustomSchemaErrorFunc(reasonOnly)
+	var op *openapi3.Operation
+	var req *http.Request
+	method := "POST"
+	if asParam {
+		method = "GET"
+		prm := &openapi3.Parameter{Name: "p", In: "query", Content: openapi3.NewContentWithJSONSchemaRef(&openapi3.SchemaRef{Value: s})}
+		op = &openapi3.Operation{Responses: openapi3.NewResponses(), Parameters: openapi3.Parameters{&openapi3.ParameterRef{Value: prm}}}
+		q := url.Values{"p": []string{string(body)}}
+		req, _ = http.NewRequest("GET", "http://example.com/x?"+q.Encode(), nil)
+	} else {
+		op = &openapi3.Operation{Responses: openapi3.NewResponses(),
+			RequestBody: &openapi3.RequestBodyRef{Value: openapi3.NewRequestBody().WithJSONSchemaRef(&openapi3.SchemaRef{Value: s})}}
+		req, _ = http.NewRequest("POST", "http://example.com/x", bytes.NewReader(body))
+		req.Header.Set("Content-Type", "application/json")
+	}
+	item := &openapi3.PathItem{}
+	item.SetOperation(method, op)
+	in := &openapi3filter.RequestValidationInput{Request: req, Options: opts,
+		Route: &routers.Route{Spec: &openapi3.T{}, Path: "/x", PathItem: item, Method: method, Operation: op}}
+	e := openapi3filter.ValidateRequest(context.Background(), in)
+	if e == nil {
+		return nil, nil
+	}
+	var flat []error
+	flattenErrs(e, &flat)
+	var se openapi3.MultiError
+	for _, fe := range flat {
+		var re *openapi3filter.RequestError
+		if errors.As(fe, &re) && re.Err != nil && !isParseErr(re.Err) {
+			se = append(se, re.Err)
+		} else {
+			return nil, nil // rejected before / besides schema validation (decoding): its text is not assembled from reasons
+		}
+	}
+	if len(se) == 0 {
+		return nil, nil
+	}
+	return se, e
+}
+
+// c19Response validates v as the JSON body of a response, or (a string) as the value of a response header with schema s,
+// through the response validator with a reason-only schema-error function.
+func c19Response(s *openapi3.Schema, body []byte, header *string, multi bool) (out error) {
+	// the schemas of the shared space are not validated documents (e.g. `type: array` without `items`); what the header /
+	// body DECODER does with those belongs to C05 / C10 — a decoder panic is "no schema error to look at" here
+	defer func() {
+		if recover() != nil {
+			out = nil
+		}
+	}()
+	opts := &openapi3filter.Options{MultiError: multi, IncludeResponseStatus: true}
+	opts.WithCustomSchemaErrorFunc(reasonOnly)
+	resp := openapi3.NewResponse().WithDescription("d")
+	h := http.Header{}
+	if header != nil {
+		resp.Headers = openapi3.Headers{"X-Verif": &openapi3.HeaderRef{Value: &openapi3.Header{Parameter: openapi3.Parameter{Schema: &openapi3.SchemaRef{Value: s}}}}}
+		h.Set("X-Verif", *header)
+	} else {
+		resp.Content = openapi3.NewContentWithJSONSchemaRef(&openapi3.SchemaRef{Value: s})
+		h.Set("Content-Type", "application/json")
+	}
+	op := &openapi3.Operation{Responses: openapi3.NewResponses(openapi3.WithStatus(200, &openapi3.ResponseRef{Value: resp}))}
+	req, _ := http.NewRequest("GET", "http://example.com/x", nil)
+	rin := &openapi3filter.RequestValidationInput{Request: req, Options: opts,
+		Route: &routers.Route{Spec: &openapi3.T{}, Path: "/x", PathItem: &openapi3.PathItem{Get: op}, Method: "GET", Operation: op}}
+	in := &openapi3filter.ResponseValidationInput{RequestValidationInput: rin, Status: 200, Header: h, Options: opts}
+	in.SetBodyBytes(body)
+	e := openapi3filter.ValidateResponse(context.Background(), in)
+	if e == nil || isParseErr(e) {
+		return nil
+	}
+	var re *openapi3filter.ResponseError
+	if errors.As(e, &re) && re.Err != nil {
+		if _, isSchema := re.Err.(*openapi3.SchemaError); isSchema {
+			return e
+		}
+		if _, isMulti := re.Err.(openapi3.MultiError); isMulti {
+			return e
+		}
+	}
+	return nil
+}
+
 func runC19(c hx.Case) any {
-	openapi3.SchemaErrorDetailsDisabled = false // the default: reasons are computed while details are enabled
+	c19Mu.RLock()
+	locked := true
+	defer func() { // a panic in the library must not leave the lock held
+		if locked {
+			c19Mu.RUnlock()
+		}
+	}()
 	s, err := caseSchema(c)
 	if err != nil {
 		return map[string]any{"kind": "schema-unmarshal-error", "err": err.Error()}
 	}
 	v := plainValue(c["value"])
-	reasonOnly := func(e *openapi3.SchemaError) string { return e.Reason }
+	if jbool(c, "nomodel") {
+		v = c19Typed(c["value"])
+	}
 	ed := s.VisitJSON(v)
 	em := s.VisitJSON(v, openapi3.MultiErrors())
 	e2 := s.VisitJSON(v, openapi3.SetSchemaErrorMessageCustomizer(reasonOnly))
-	var e3 error
-	// through the request validator, JSON body, reason-only schema-error function
-	if body, err := json.Marshal(v); err == nil {
-		op := &openapi3.Operation{Responses: openapi3.NewResponses(),
-			RequestBody: &openapi3.RequestBodyRef{Value: openapi3.NewRequestBody().WithJSONSchemaRef(&openapi3.SchemaRef{Value: s})}}
-		req, _ := http.NewRequest("POST", "http://example.com/x", bytes.NewReader(body))
-		req.Header.Set("Content-Type", "application/json")
-		opts := &openapi3filter.Options{}
-		opts.WithCustomSchemaErrorFunc(reasonOnly)
-		in := &openapi3filter.RequestValidationInput{Request: req, Options: opts,
-			Route: &routers.Route{Spec: &openapi3.T{}, Path: "/x", PathItem: &openapi3.PathItem{Post: op}, Method: "POST", Operation: op}}
-		if e := openapi3filter.ValidateRequest(context.Background(), in); e != nil {
-			var re *openapi3filter.RequestError
-			if errors.As(e, &re) && re.Err != nil {
-				e3 = re.Err // the part of the message that comes from the schema error
-			}
+	e2m := s.VisitJSON(v, openapi3.SetSchemaErrorMessageCustomizer(reasonOnly), openapi3.MultiErrors())
+	var reasons []string
+	msgs := []string{} // every message that is assembled from reasons alone
+	add := func(path string, e error) {
+		if e != nil {
+			msgs = append(msgs, path+": "+e.Error())
+			allReasons(e, &reasons, 0)
 		}
 	}
-	// … and as a query parameter described by content (any schema, any JSON value), fail-first and multi-error
-	var e4, e5 error
-	if body, err := json.Marshal(v); err == nil {
-		for _, multi := range []bool{false, true} {
-			prm := &openapi3.Parameter{Name: "p", In: "query", Content: openapi3.NewContentWithJSONSchemaRef(&openapi3.SchemaRef{Value: s})}
-			op := &openapi3.Operation{Responses: openapi3.NewResponses(), Parameters: openapi3.Parameters{&openapi3.ParameterRef{Value: prm}}}
-			q := url.Values{"p": []string{string(body)}}
-			req, _ := http.NewRequest("GET", "http://example.com/x?"+q.Encode(), nil)
-			opts := &openapi3filter.Options{MultiError: multi}
-			opts.WithCustomSchemaErrorFunc(reasonOnly)
-			in := &openapi3filter.RequestValidationInput{Request: req, Options: opts,
-				Route: &routers.Route{Spec: &openapi3.T{}, Path: "/x", PathItem: &openapi3.PathItem{Get: op}, Method: "GET", Operation: op}}
-			if e := openapi3filter.ValidateRequest(context.Background(), in); e != nil {
-				var flat []error
-				flattenErrs(e, &flat)
-				for _, fe := range flat {
-					var re *openapi3filter.RequestError
-					if errors.As(fe, &re) && re.Err != nil {
-						if _, isParse := re.Err.(*openapi3filter.ParseError); isParse {
-							continue // a value that does not decode as the parameter is quoted by the parse error: not a schema error
-						}
-						if multi {
-							e5 = re.Err
-						} else {
-							e4 = re.Err
+	add("customizer", e2)
+	add("customizer/multi", e2m)
+	paths := 0
+	// a value the schema accepts produces no schema error on any path (the filter adds only the request/response reading)
+	if body, err := json.Marshal(v); err == nil && (ed != nil || mentionsKey(c["schema"], "readOnly", "writeOnly")) {
+		// the request validator: JSON body and content-described query parameter, fail-first and multi-error; the text of
+		// the RequestError itself, and what ConvertErrors / the ValidationError encoder make of it (Title and Source; the
+		// Detail of an enum error quotes the value by design and is not a message assembled from reasons)
+		for _, asParam := range []bool{false, true} {
+			for _, multi := range []bool{false, true} {
+				name := fmt.Sprintf("request-validator/param=%v/multi=%v", asParam, multi)
+				se, full := c19Request(s, body, asParam, multi)
+				add(name+"/schema-error", se)
+				add(name+"/RequestError", full)
+				if full != nil {
+					paths++
+					var flat []error
+					flattenErrs(full, &flat)
+					for _, fe := range flat {
+						if ve, ok := openapi3filter.ConvertErrors(fe).(*openapi3filter.ValidationError); ok {
+							t := ve.Title
+							if ve.Source != nil {
+								t += " @" + ve.Source.Pointer + " " + ve.Source.Parameter
+							}
+							msgs = append(msgs, name+"/ConvertErrors.Title: "+t)
 						}
 					}
 				}
 			}
 		}
+		// the response validator: JSON body, and (string values) a response header with this schema
+		for _, multi := range []bool{false, true} {
+			e := c19Response(s, body, nil, multi)
+			add(fmt.Sprintf("response-validator/body/multi=%v", multi), e)
+			if e != nil {
+				paths++
+			}
+			if str, ok := v.(string); ok {
+				e := c19Response(s, nil, &str, multi)
+				add(fmt.Sprintf("response-validator/header/multi=%v", multi), e)
+				if e != nil {
+					paths++
+				}
+			}
+		}
 	}
-	var reasons []string
-	for _, e := range []error{ed, em, e2, e3, e4, e5} {
+	for _, e := range []error{ed, em} {
 		allReasons(e, &reasons, 0)
 	}
+	c19Mu.RUnlock()
+	locked = false
+	// details disabled, as a deployment sets it: before validating (wrapped validator errors are rendered eagerly)
+	if ed != nil {
+		func() {
+			c19Mu.Lock()
+			defer func() { openapi3.SchemaErrorDetailsDisabled = false; c19Mu.Unlock() }()
+			openapi3.SchemaErrorDetailsDisabled = true
+			add("details-disabled/default", s.VisitJSON(v))
+			add("details-disabled/multi", s.VisitJSON(v, openapi3.MultiErrors()))
+		}()
+	}
 	leaks := []any{}
+	leaky := func(t string) bool {
+		if strings.Contains(t, c19Marker) {
+			return true
+		}
+		for _, sp := range c19Specials {
+			if strings.Contains(t, sp) {
+				return true
+			}
+		}
+		return false
+	}
 	for _, r := range reasons {
-		if strings.Contains(r, c19Marker) {
+		if leaky(r) {
 			leaks = append(leaks, "reason: "+r)
 		}
 	}
-	// message paths that are assembled from reasons alone
-	msgs := []string{}
-	if e2 != nil {
-		msgs = append(msgs, "customizer: "+e2.Error())
-	}
-	if e3 != nil {
-		msgs = append(msgs, "request-validator: "+e3.Error())
-	}
-	if e4 != nil {
-		msgs = append(msgs, "request-validator/parameter: "+e4.Error())
-	}
-	if e5 != nil {
-		msgs = append(msgs, "request-validator/parameter/multi: "+e5.Error())
-	}
-	// details disabled, as a deployment sets it: before validating (wrapped validator errors are rendered eagerly)
-	openapi3.SchemaErrorDetailsDisabled = true
-	if e := s.VisitJSON(v); e != nil {
-		msgs = append(msgs, "details-disabled/default: "+e.Error())
-		allReasons(e, &reasons, 0)
-	}
-	if e := s.VisitJSON(v, openapi3.MultiErrors()); e != nil {
-		msgs = append(msgs, "details-disabled/multi: "+e.Error())
-	}
-	openapi3.SchemaErrorDetailsDisabled = false
 	for _, m := range msgs {
-		if strings.Contains(m, c19Marker) {
+		if leaky(m) {
 			leaks = append(leaks, "message "+m)
 		}
 	}
-	return map[string]any{"ok": ed == nil, "leaks": leaks, "dflt": topReasons(ed), "multi": topReasons(em), "nreasons": len(reasons)}
+	return map[string]any{"ok": ed == nil, "leaks": leaks, "dflt": topReasons(ed), "multi": topReasons(em), "nreasons": len(reasons), "npaths": paths}
 }
 
 func decanon(v any) any {
@@ -396,6 +612,9 @@ func cmpC19(c hx.Case, impl any, reply map[string]any) hx.Verdict {
 	if l := jlist(im["leaks"]); len(l) > 0 {
 		v.IS = false
 		v.Detail = fmt.Sprintf("a marker planted in the value appears in: %v", l[0])
+	}
+	if jbool(c, "nomodel") {
+		return v // Go values outside `J`: the marker search is the whole check
 	}
 	// spec side: the model's own fragments must not be value strings (proved; evaluated here as the oracle)
 	if jbool(model, "valueFrag") {
